@@ -26,8 +26,13 @@ def main():
     sites = collections.Counter()
     why_of = {}
     shown = {}
+    guarded = {}
     for f in funcs:
         L = res[f.name]
+        for r in L.rows:
+            a = r["acc"]
+            if r["cls"] == "GUARDED" and a.idx is not None and bounds.atoms_datadep_noiv(a.idx):
+                guarded[a.key()] = a.show_key()
         proven_at = collections.defaultdict(list)
         need_at = collections.defaultdict(list)
         for r in L.rows:
@@ -54,10 +59,12 @@ def main():
     for k, v in sorted(sites.items()):
         print("%3d  %s" % (v, shown[k]))
     print("%d sites, %d accesses" % (len(sites), sum(sites.values())))
+    print("%d input-dependent accesses proven by a dominating condition (guarded): %s" % (len(guarded), sorted(guarded.values())[:60]))
     if "--write" in sys.argv:
         rows = [dict(function=k[0], array=k[1], access=k[2], conds=list(k[3]), n=v, shown=shown[k], why=why_of[k]) for k, v in sorted(sites.items())]
+        grows = [dict(function=k[0], array=k[1], access=k[2], shown=v) for k, v in sorted(guarded.items())]
         with open(os.path.join(VERIF, "rules", "c20_sites.json"), "w") as f:
-            json.dump(rows, f, indent=0, sort_keys=True)
+            json.dump(dict(sites=rows, guarded=grows), f, indent=0, sort_keys=True)
             f.write("\n")
         print("written rules/c20_sites.json")
 
